@@ -67,3 +67,27 @@ CHECKS['C11'] = dict(
                      quick=_c11_runs(5, 9, 4, 1, 100),
                      thorough=_c11_runs(7, 40, 5, 2, 1500))],
 )
+
+
+def _c05_runs(nk, maxlive, depth, sdepth, k, dl, flagsets, dtors):
+    return [['--flags', f, '--dtor', d, '--nkeys', nk, '--maxlive', maxlive, '--depth', depth, '--stateless', sdepth, '--k', k, '--deadline', dl]
+            for f in flagsets for d in dtors]
+
+
+CHECKS['C05'] = dict(
+    title='map is a dictionary',
+    rule='in-process BFS over put/put-same/remove/iterate(6 callback behaviours)/iterator(next,set,remove)/clear histories against a dictionary monitor; '
+         'built with the guarded hook LIBMODULE_VERIF_MAP_SIZE=8 (8-slot table: forced collisions, shared home slots, clusters wrapping the table end, two growth steps) '
+         'and once more at the default table size; dedup key = observed iteration order (layout) + growth history + iterator state + last k ops; '
+         'after every op: len/get/contains of every key, callback iteration visits each live key once, destructor log, allocator ledger (one key copy per live entry); 5 probe suffixes',
+    bounds=dict(quick='8-slot table: 7 keys, <=7 live, 6 flag sets x {dtor,no dtor}, BFS depth 6 (k=1), stateless depth 3; default table: depth 5',
+                thorough='8-slot table: 10 keys, <=8 live, BFS depth 9 (k=2), stateless depth 4; default table: depth 7'),
+    assumptions=['map not mutated from outside while an iterator is live; iterate callbacks only remove the current entry',
+                 'AUTOFREE without DUP: ownership of the key passed to a put that hits an existing key is unspecified (either outcome accepted)'],
+    parts=[seqx_part('tiny', 'c05_map', ['structs', 'utils'], lib_defines=['LIBMODULE_VERIF_MAP_SIZE=8'], cflags=['-DLIBMODULE_VERIF_MAP_SIZE=8'],
+                     quick=_c05_runs(7, 7, 6, 3, 1, 150, (0, 1, 2, 4, 5, 6), (1, 0)),
+                     thorough=_c05_runs(10, 8, 9, 4, 2, 1500, (0, 1, 2, 4, 5, 6), (1, 0))),
+           seqx_part('default', 'c05_map', ['structs', 'utils'],
+                     quick=_c05_runs(5, 5, 5, 0, 1, 100, (0, 5), (1,)),
+                     thorough=_c05_runs(6, 6, 7, 3, 2, 900, (0, 5, 6), (1, 0)))],
+)
